@@ -169,3 +169,15 @@ PROPS["C12"]["streams"] = PROPS["C12"]["streams"] + [S("seqapi", 80, 2000, vm=(3
 # C14 "after Close returns, every LogStore and StableStore method returns ErrClosed": the sequential
 # stream probes every method (also empty batches / empty ranges) after each Close
 PROPS["C14"]["streams"] = PROPS["C14"]["streams"] + [S("seqapi", 60, 1500, vm=(3, 40), vm_maxlen=5000)]
+
+# C13 with concurrent readers pinning old state: Props/C13Conc.v (L3: once every call has returned and the
+# rotation goroutine is idle, every handle outside the current state has been closed exactly once) and the
+# directory-vs-metadata oracle of the forced-schedule runner (witness unlisted-file-after-readers)
+PROPS["C13"]["extra_props"] = ["C13Conc"]
+PROPS["C13"]["streams"] = PROPS["C13"]["streams"] + [S("sched06", 700, 12000, vm=(8, 80), vm_maxlen=400, timeout=3000)]
+PROPS["C13"]["rule"] = PROPS["C13"]["rule"] + "; sched06 (forced schedules of readers against the single writer, see C06): after every case whose calls all returned the in-memory directory must hold exactly the files of the committed metadata's segments (readers that pinned an older state across a truncation have released it)"
+
+# C08 "across any interleaving ... sequential and concurrent": stable-store calls of two clients overlapping
+# inside the store, on the real BoltMetaDB; per-key register linearizability (implementation only)
+PROPS["C08"]["streams"] = PROPS["C08"]["streams"] + [S("stableconc", 40, 1500, vm=(0, 0), timeout=3000)]
+PROPS["C08"]["rule"] = PROPS["C08"].get("rule", "") + "; stableconc (implementation only, real BoltMetaDB behind a pass-through MetaStore): while a Get/Set of the main caller is inside the store -- effect done, result not yet seen by the WAL -- other keys are committed directly on the BoltMetaDB (large values: page reuse) and a second client runs whole Set/Get/SetUint64/GetUint64/StoreLogs/DeleteRange calls on the same keys; every call is recorded with invocation and return instants and the history of every key must be linearizable as a register (Wing-Gong search), also across clean reopens; the log must equal what was appended"
